@@ -105,6 +105,9 @@ PAIRS = [("s_a", "i_2"), ("i_2", "f_2_5"), ("b_T", "s_True"), ("l_lang", "s_a"),
          ("s_a", "s_quote"), ("i_1", "i_2"), ("d_naive", "d_utc"), ("s_1", "i_2"), ("l_exdt", "s_a")]
 
 
+SMALL_VALUES = [k for k, v in values.VALUES.items() if "big" not in v.tags]
+
+
 def extras(tier, which, spelling, urikey):
     """list of attribute-op suffix tuples"""
     k = (urikey, "k", spelling)
@@ -115,16 +118,16 @@ def extras(tier, which, spelling, urikey):
         for v in ("s_a", "i_2", "l_lang", "q_exB"):
             out.append((("at", k, v),))
     if which == "all":
-        for v in values.VALUES:
+        for v in SMALL_VALUES:
             out.append((("at", k, v),))
         for pn in PROV_ATTR_NAMES:
-            for v in values.VALUES:
+            for v in SMALL_VALUES:
                 out.append((("at", pn, v),))
-        for v in values.VALUES:
+        for v in SMALL_VALUES:
             out.append((("at", XSD_ATTR_NAME, v),))
         for v in ("s_a", "s_uni", "i_2", "q_exA", "l_lang"):
             out.append((("at", NONASCII_ATTR_NAME, v),))
-        for v in values.VALUES:
+        for v in SMALL_VALUES:
             out.append((("at", PROV_OTHER_ATTR_NAME, v),))
         for v in ("s_a", "i_2", "q_exA", "l_exdt"):
             out.append((("at", XSI_ATTR_NAME, v),))
